@@ -79,7 +79,7 @@ Section ConcData.
     c_data (fst (exec_mop g s tid t m rest)) = c_data s.
   Proof.
     intros Hm. destruct t as [regs prog cont out].
-    destruct m as [q i first keep|q i cand keep|delta after|h|r|r report|tb q i|q o]; cbn [exec_mop].
+    destruct m as [q i rt first keep|q i off cand keep|delta after|h|r|r report|tb q i|q o]; cbn [exec_mop].
     - destruct (slot_lookup (c_slots s) (i :: q)); [|destruct (child_is_node g q i)]; reflexivity.
     - destruct (slot_lookup (c_slots s) (i :: q)); reflexivity.
     - reflexivity.
